@@ -104,6 +104,14 @@ func genInbox(r *Rng, prop string, k int) *RunSpec {
 	}
 	actorPool := []string{st.Dave, st.Erin, "https://" + hostR + "/u/fay"}
 	st.W.Remote = append(st.W.Remote, DocSpec{actorPool[2], mustJSON(remoteActor("fay"))})
+	if r.Intn(4) == 0 {
+		// an actor whose IRI differs from dave's only in the letter case of its path: another IRI, another actor
+		dv := caseVariant(st.Dave)
+		d := remoteActor("dave")
+		d["id"] = dv
+		st.W.Remote = append(st.W.Remote, DocSpec{dv, mustJSON(d)})
+		actorPool[r.Intn(3)] = dv
+	}
 	// 1..3 actors
 	var actors []interface{}
 	p := r.Perm(3)
@@ -218,7 +226,7 @@ func genInbox(r *Rng, prop string, k int) *RunSpec {
 		f = J{"object": objs}
 	case "Accept", "Reject":
 		fid := Pick(r, []string{st.Follow1, "https://" + hostA + "/f/2", "https://" + hostA + "/f/3", "https://" + hostA + "/f/4", "https://" + hostA + "/f/none"})
-		claimed := J{"type": "Follow", "id": fid, "actor": Pick(r, []string{st.Alice.ID, st.Alice.ID, st.Carol.ID}), "object": actorIDs}
+		claimed := J{"type": "Follow", "id": fid, "actor": Pick(r, []string{st.Alice.ID, st.Alice.ID, st.Carol.ID, caseVariant(st.Alice.ID)}), "object": actorIDs}
 		var obj interface{} = claimed
 		if r.Intn(3) == 0 {
 			obj = fid // by IRI: served by a.example's own handler
